@@ -197,9 +197,9 @@ def _unwrap(f):
 
 
 CHECKS = [
-    Check("wrap_position", _unwrap(body_wrap), lambda: {"c": wrap_case()}, quick=5000, thorough=60000),
+    Check("wrap_position", _unwrap(body_wrap), lambda: {"c": wrap_case()}, quick=5000, thorough=15000),
     Check("wrap_separation", _unwrap(body_separation_entries), lambda: {"c": wrap_case()}, quick=4000,
-          thorough=60000),
+          thorough=15000),
     Check("separation_vector", _unwrap(body_separation), lambda: {"c": separation_case()}, quick=4000,
-          thorough=60000),
+          thorough=15000),
 ]
